@@ -519,6 +519,41 @@ static void gen_runs(const std::vector<long long> &alpha) {
     }
 }
 
+// Inputs close to the documented limit of 256 Mi code units (C03: "for every input of fewer than 256 Mi code units"):
+// the event carries sizes and the first/last unit only.
+template <class T, class F> static void op_huge(const char *src, const char *dst, size_t n, F conv) {
+    if (!S.take()) return;
+    Out h; h.s("{").k("e").q("Huge").c(',').k("i").i(S.idx - 1).c(',').k("src").q(src).c(',').k("dst").q(dst).c(',').k("n").i((long long)n);
+    set_cur(S.idx - 1, h.b + "}");
+    size_t saved = alloc_state().max_block; alloc_state().max_block = (size_t)3 << 30;
+    int saved_wd = wd_limit(); wd_limit() = 120;
+    T *p = (T *)malloc(n * sizeof(T));
+    if (!p) { alloc_state().max_block = saved; wd_limit() = saved_wd; return; }     // not enough memory here: nothing executed, nothing recorded
+    for (size_t i = 0; i < n; ++i) p[i] = (T)'a';
+    Out &o = out();
+    o.s(h.b);
+    try {
+        auto r = conv(p, n);
+        o.c(',').k("res").q("ok").c(',').k("size").i((long long)r.size()).c(',').k("first").i((long long)(unsigned long)r.data()[0])
+         .c(',').k("last").i((long long)(unsigned long)r.data()[r.size() ? r.size() - 1 : 0]).c(',').k("z").i((long long)(unsigned long)r.data()[r.size()]);
+    }
+    catch (const ST::unicode_error &) { o.c(',').k("res").q("unicode_error"); }
+    catch (const std::bad_alloc &) { o.c(',').k("res").q("bad_alloc"); }
+    catch (const assert_failure &a) { o.c(',').k("res").q("assert"); }
+    catch (const std::exception &) { o.c(',').k("res").q("other"); }
+    o.s("}\n"); o.flush();
+    free(p);
+    alloc_state().max_block = saved; wd_limit() = saved_wd;
+}
+static void gen_huge() {
+    const size_t Mi = (size_t)1 << 20;
+    op_huge<char16_t>("utf16", "utf8", 128 * Mi + 5, [](const char16_t *p, size_t n) { return ST::utf16_to_utf8(p, n, ST::check_validity); });
+    op_huge<char32_t>("utf32", "utf8", 64 * Mi + 5, [](const char32_t *p, size_t n) { return ST::utf32_to_utf8(p, n, ST::check_validity); });
+    op_huge<wchar_t>("wchar", "utf8", 64 * Mi + 7, [](const wchar_t *p, size_t n) { return ST::wchar_to_utf8(p, n, ST::substitute_invalid); });
+    op_huge<char16_t>("utf16", "latin1", 200 * Mi, [](const char16_t *p, size_t n) { return ST::utf16_to_latin_1(p, n, ST::check_validity); });
+    op_huge<char>("utf8", "latin1", 255 * Mi, [](const char *p, size_t n) { return ST::utf8_to_latin_1(p, n, ST::check_validity); });
+}
+
 template <class T> static void feed_units(const Table<T> &tbl, Enc src, const std::vector<long long> &u) {
     if (!S.take()) return;
     std::vector<T> v; bool nul = false;
@@ -609,6 +644,11 @@ static void gen_latin1() {
         feed_scalars({b}); feed_scalars({0x41, b}); feed_scalars({b, 0xE9}); feed_scalars({0xE9, b, 0x41}); feed_scalars({b, b});
         feed_scalars({0xFF, b, 0x80});
     }
+    // longer Latin-1 texts with one high byte at every position (word-at-a-time measuring, block copies)
+    for (int n : {7, 8, 9, 15, 16, 17, 24, 31, 32, 33}) for (int pos = 0; pos < n; ++pos) for (uint32_t hb : {0x80u, 0xE9u, 0xFFu}) {
+        std::vector<uint32_t> sc((size_t)n, 0x41); sc[(size_t)pos] = hb; feed_scalars(sc);
+        if (pos + 1 < n) { sc[(size_t)pos + 1] = 0xC3; feed_scalars(sc); }
+    }
 }
 
 // well-formed text cut at every unit, in every source encoding; plus (nullptr, 0)
@@ -681,6 +721,7 @@ int main(int argc, char **argv) {
     if (gen == "scalars") gen_scalars(lo, hi, step, ctx);
     else if (gen == "scalarseqs") gen_scalar_seqs(alpha, maxlen);
     else if (gen == "runs") gen_runs(alpha);
+    else if (gen == "huge") gen_huge();
     else if (gen == "units") gen_units(src, alpha, minlen, maxlen);
     else if (gen == "random") gen_random(count, seed, maxlen);
     else if (gen == "file") gen_file(file.c_str());
